@@ -2,8 +2,8 @@ SPECIFICATION GSpec
 CONSTANTS
   Max = 16777216
   Small = 41
-  Backends = {"memory", "localdisk", "diskpacked", "gate", "encrypt", "condgate"}
-  BigBackends = {"memory", "gate", "condgate"}
+  Backends = {"memory", "localdisk", "diskpacked", "gate", "encrypt", "condgate", "replicagate", "shardgate", "nsgate", "packedgate"}
+  BigBackends = {"memory", "gate", "condgate", "replicagate", "shardgate"}
   Deviations = {}
 INVARIANT Emit
 CHECK_DEADLOCK FALSE
